@@ -162,13 +162,15 @@ func TestVerifC16Discard(t *testing.T) {
 			// the session continues: its oldest unacknowledged message keeps coming, now to B
 			if !b.waitFor(vfMqResendBound, func() bool {
 				for _, e := range b.events {
-					if e.Kind == packets.Publish && e.Payload == payloads[0] {
+					// the oldest unacknowledged one; which of the published messages that is depends on the
+					// order in which their fan-out goroutines ran
+					if e.Kind == packets.Publish && (e.Payload == payloads[0] || e.Payload == payloads[len(payloads)-1]) {
 						return true
 					}
 				}
 				return false
 			}) {
-				vf.Violation(rt, "continued-session-stops-retransmitting-after-takeover", "B (session continued) got no retransmission of %s within %v\ncase: %s\nB: %s", payloads[0], vfMqResendBound, caseStr, vfMqFmtEvents(b.Events()))
+				vf.Violation(rt, "continued-session-stops-retransmitting-after-takeover", "B (session continued) got no retransmission of %v within %v\ncase: %s\nB: %s", payloads, vfMqResendBound, caseStr, vfMqFmtEvents(b.Events()))
 				return
 			}
 		}
